@@ -88,6 +88,104 @@ class SentinelAbsInt(AbsInt):
         return st
 
 
+def _uncast(e):
+    while e is not None and e.k == 'cast':
+        e = e.a[2]
+    return e
+
+
+def _is_cmp_call(e):
+    e = _uncast(e)
+    return e is not None and e.k == 'call' and e.a[0].split('::')[-1].lower().startswith('strcmp') and len(e.a[2]) == 2
+
+
+class SortedHooks(RegHooks):
+    """isSorted(): ghost variables idx#v (registry index whose name v holds) and start#v (every adjacent pair
+    from start#v up to idx#v has been compared in order on this path)."""
+
+    def __init__(self, *a):
+        RegHooks.__init__(self, *a)
+        self.cmpvar = {}
+        self.named = set()
+        self.true_returns = []
+
+    def _ghost(self, ai, st, g, v):
+        ai.types[g] = (32, True)
+        ai.assign(st, g, v)
+
+    def on_object_assign(self, ai, x, rhs, st):
+        r = _uncast(rhs)
+        names = [c for c in walk_expr(r) if c.k == 'call' and c.a[0].endswith('::name')]
+        zi = [c for c in walk_expr(r) if c.k == 'call' and c.a[0].endswith('::ZoneRegistryBroker::zoneInfo') and len(c.a[2]) == 1]
+        if names and zi:
+            v = ai.lin(zi[0].a[2][0], st)
+            self._ghost(ai, st, 'idx#' + x, v)
+            self._ghost(ai, st, 'start#' + x, v)
+            self.named.add(x)
+            return
+        y = path_of(r) if r is not None and r.k in ('var', 'field') else None
+        if y in self.named:
+            self._ghost(ai, st, 'idx#' + x, ('lin', 'idx#' + y, 0))
+            self._ghost(ai, st, 'start#' + x, ('lin', 'start#' + y, 0))
+            self.named.add(x)
+            return
+        if x in self.named:
+            self.named.discard(x)
+            st.forget('idx#' + x)
+            st.forget('start#' + x)
+
+    def on_assign(self, ai, x, rhs, st):
+        RegHooks.on_assign(self, ai, x, rhs, st)
+        if _is_cmp_call(rhs):
+            self.cmpvar[x] = _uncast(rhs)
+        else:
+            self.cmpvar.pop(x, None)
+
+    def on_return(self, ai, s, st):
+        v = ai.const_of(s.a[0]) if s.a[0] is not None else None
+        if v:
+            ok = any(st.get('start#' + x, '0') <= 0 and st.get(self.size, 'idx#' + x) <= 1 for x in self.named)
+            self.true_returns.append((s.loc, ok, st.describe()))
+
+
+class SortedAbsInt(SentinelAbsInt):
+    def guard(self, st, cond, truth):
+        SentinelAbsInt.guard(self, st, cond, truth)
+        c = _uncast(cond)
+        if c is not None and c.k == 'bin' and c.a[0] in ('<', '<=', '>', '>=') and self.const_of(c.a[2]) == 0:
+            l = _uncast(c.a[1])
+            call = l if _is_cmp_call(l) else self.hooks.cmpvar.get(path_of(l)) if l.k in ('var', 'field') else None
+            in_order = (c.a[0] in ('<', '<=')) == truth      # the branch on which the pair is not out of order
+            if call is not None and in_order:
+                p, q = (path_of(_uncast(x)) for x in call.a[2])
+                hk = self.hooks
+                if p in hk.named and q in hk.named and st.get('idx#' + p, 'idx#' + q) <= -1 and st.get('idx#' + q, 'idx#' + p) <= 1:
+                    # q is the successor of p: the verified run of p now extends to q
+                    hk._ghost(self, st, 'start#' + q, ('lin', 'start#' + p, 0))
+        return st
+
+
+def sorted_cover(R, lib, fn, size_var):
+    """isSorted() may answer true only when every adjacent pair (k-1, k), 1 <= k < registrySize, was compared."""
+    hooks = SortedHooks(R, fn, size_var, {}, lib)
+    ai = SortedAbsInt(fold_global=lib.global_value, hooks=hooks)
+    st = DBM()
+    for pn, pt in fn.params:
+        ai.declare(st, pn, pt)
+    ai.run(fn.body, st)
+    c = '%s:return-true' % fn.name
+    if not hooks.true_returns:
+        raise AnalysisError('%s: isSorted() has no "return true" exit' % fn.loc)
+    seen = {}
+    for loc, ok, descr in hooks.true_returns:     # the last record per location is the one of the stable iteration
+        seen[loc] = (ok, descr)
+    for loc, (ok, descr) in seen.items():
+        R.instance('R2-cover', c, loc)
+        if not ok:
+            R.violation('R2-cover', c, loc, 'isSorted() can answer true although not every adjacent pair of entries 0..%s-1 was compared '
+                        '(need: a name variable whose verified run starts at index 0 and ends at %s-1); known at this exit: %s' % (size_var, size_var, descr))
+
+
 def analyse(R, lib, fn, size_var, summaries, entry_facts=None):
     hooks = RegHooks(R, fn, size_var, summaries, lib)
     ai = SentinelAbsInt(fold_global=lib.global_value, hooks=hooks)
@@ -239,6 +337,7 @@ def run(cfg):
     R.rule('R1-term', 'every loop of the search functions has a ranking function', floor=8)
     R.rule('R2', 'an index is returned only under comparison == 0 at that index; other exits return kInvalidIndex', floor=6)
     R.rule('R2-dir', 'the half discarded by the binary search agrees with the order isSorted() tests', floor=2)
+    R.rule('R2-cover', 'isSorted() answers true only after comparing every adjacent pair of the registry in order', floor=2)
     R.rule('R3', 'ZoneManagerImpl wrappers pass registrar results unchanged; null maps to TimeZone::forError()', floor=8)
     insts = sorted({f.inst for f in lib.funcs.get(REG + '::binarySearchByName', []) if f.inst != 'primary'})
     if len(insts) < 2:
@@ -271,6 +370,8 @@ def run(cfg):
             R.analysed['functions'].append('%s [%s]' % (f.name, tag))
             if name != 'isSorted':
                 returns_rule(R, lib, f, ai, f.params[1][0], inv)
+            else:
+                sorted_cover(R, lib, f, f.params[1][0])
         for name in ('getZoneInfoForIndex', 'getZoneInfoForName', 'getZoneInfoForId', 'findIndexForName', 'findIndexForId'):
             f = lib.fn(REG + '::' + name, inst)
             s = dict(summ)
@@ -431,14 +532,29 @@ def found_rule(R, lib, inst, tag):
     c = '%s:direction' % f.name
     R.instance('R2-dir', c, f.loc)
     asc = None
+    cmpdefs = {}
     for s in walk_stmts(srt.body):
+        if s.k == 'decl' and s.a[2] is not None and _is_cmp_call(s.a[2]):
+            cmpdefs[s.a[0]] = _uncast(s.a[2])
         if s.k == 'if' and any(x.k == 'return' for x in s.a[1]):
-            cnd = s.a[0]
-            while cnd.k == 'cast':
-                cnd = cnd.a[2]
-            if cnd.k == 'bin' and cnd.a[0] in ('>', '<', '>=', '<=') and cnd.a[1].k == 'call' and len(cnd.a[1].a[2]) == 2:
-                first = path_of(cnd.a[1].a[2][0])
-                asc = (cnd.a[0] in ('>', '>=')) == (first is not None and 'prev' in first.lower())
+            for cnd in walk_expr(s.a[0]):
+                if not (cnd.k == 'bin' and cnd.a[0] in ('>', '<', '>=', '<=')):
+                    continue
+                l = _uncast(cnd.a[1])
+                call = l if _is_cmp_call(l) else cmpdefs.get(path_of(l)) if l.k == 'var' else None
+                if call is None:
+                    continue
+                first, second = (path_of(_uncast(x)) for x in call.a[2])
+                # the "previous" operand is the one the loop refreshes from the other one (prev = curr)
+                copies = {path_of(t.a[0]): path_of(_uncast(t.a[1])) for t in walk_stmts(srt.body)
+                          if t.k == 'assign' and t.a[0].k == 'var' and _uncast(t.a[1]).k == 'var'}
+                if copies.get(first) == second:
+                    first_is_prev = True
+                elif copies.get(second) == first:
+                    first_is_prev = False
+                else:       # no refresh in the loop (R2-cover reports that); fall back to the operand order
+                    first_is_prev = True
+                asc = (cnd.a[0] in ('>', '>=')) == first_is_prev
     if asc is None:
         raise AnalysisError('%s: isSorted() comparison shape not recognised' % srt.loc)
     # find assignments to the bracket variables guarded by the sign of the comparison
@@ -583,6 +699,18 @@ SELFTEST = [
          find='      if (! zoneInfo) return TimeZone::forError();\n', replace='', rule='R3'),
     dict(id='manager-index-shifted', file='src/ace_time/ZoneManager.h',
          find='mZoneRegistrar.getZoneInfoForIndex(index);', replace='mZoneRegistrar.getZoneInfoForIndex(index + 1);', rule='R3'),
+    dict(id='issorted-stops-short', file='src/ace_time/ZoneRegistrar.h',
+         find='for (uint16_t i = 1; i < registrySize; ++i) {', replace='for (uint16_t i = 1; i < registrySize - 1; ++i) {', rule='R2-cover'),
+    dict(id='issorted-starts-late', file='src/ace_time/ZoneRegistrar.h',
+         find='for (uint16_t i = 1; i < registrySize; ++i) {', replace='for (uint16_t i = 2; i < registrySize; ++i) {', rule='R2-cover'),
+    dict(id='issorted-prev-not-advanced', file='src/ace_time/ZoneRegistrar.h',
+         find='        prevName = currName;\n', replace='', rule='R2-cover'),
+    dict(id='issorted-compare-skipped-for-last', file='src/ace_time/ZoneRegistrar.h',
+         find='        if (STRCMP_PP(prevName, currName) > 0) {', replace='        if (i + 1 < registrySize && STRCMP_PP(prevName, currName) > 0) {', rule='R2-cover'),
+    dict(id='issorted-condition-spelling-silent', file='src/ace_time/ZoneRegistrar.h',
+         find='for (uint16_t i = 1; i < registrySize; ++i) {', replace='for (uint16_t i = 1; i != registrySize; ++i) {', expect='silent'),
+    dict(id='issorted-compare-in-variable-silent', file='src/ace_time/ZoneRegistrar.h',
+         find='        if (STRCMP_PP(prevName, currName) > 0) {', replace='        int cmp = STRCMP_PP(prevName, currName);\n        if (cmp > 0) {', expect='silent'),
     dict(id='midpoint-sum-spelling-silent', file='src/ace_time/ZoneRegistrar.h',
          find='uint16_t c = a + diff / 2;', replace='uint16_t c = (a + b) / 2;', expect='silent'),
     dict(id='while-condition-spelling-silent', file='src/ace_time/ZoneRegistrar.h', regex=True,
